@@ -154,6 +154,13 @@ def cases(draw, tier, det):
                 and draw(st.integers(0, 2)) == 0:
             r["columns"] = "rev:" + fit_r["columns"]  # the training labels in the opposite order: data are matched by position
         case["reprs"][ep] = r
+    if det == "StatThresholdAnomaliser":
+        # the user's statistic is computed on the values in their own dtype and compared with the bounds by NumPy's rules: for
+        # float32 data a bound is rounded to single precision first (8.6e-275 becomes 0), so the same numbers held as float32
+        # and as float64 may legitimately be flagged differently. C11 claims int64 / float64 (narrow integers are compared exactly).
+        for r_ in case["reprs"].values():
+            if r_["dtype"] == "float32":
+                r_["dtype"] = "float64"
     # an indicator variable (0 / 1, e.g. "valve open") among the columns: a bool column in a DataFrame, floats in the canonical run
     indicator = {"col": draw(st.integers(0, p - 1)), "at": draw(st.integers(1, max(1, n - 1)))} \
         if p >= 2 and draw(st.integers(0, 5)) == 0 else None
